@@ -27,7 +27,7 @@
  * then nrandom/16 "bound" scenarios (limit bytes and configured concurrency over 0..255(+), up to ~270 recipients, reports withheld),
  * nrandom/16 "multi-pass" scenarios (3-8 recipients on one channel, several passes with mixed outcomes),
  * nrandom/40 fault sweeps (2-3 sequential messages that reuse job slots; base run, then one run per queue-file system call of
- * qmail-send with that call failing) and nrandom/50 clean-stop sweeps (expired/young messages, low concurrency; base run, then one
+ * qmail-send with that call failing, then one run per unlink of qmail-clean - intd/ todo/ mess/ - failing with EIO) and nrandom/50 clean-stop sweeps (expired/young messages, low concurrency; base run, then one
  * run per select point with TERM there, exit 0, restart on the same queue).
  *
  * output: CASE <scenario>, T <trace>, X <harness events>, D <queue dump>, END
